@@ -1291,6 +1291,7 @@ return 1;""",
                 struct_fmt = struct_member.fmtdict
                 fmt_arg.field_name = struct_fmt.field_name
                 fmt_arg.PY_member_object = struct_fmt.PY_member_object
+                fmt_arg.PY_member_data = struct_fmt.PY_member_data
                 field_size = struct_member.ast.get_array_size()
                 if field_size is not None:
                     fmt_arg.field_size = field_size
@@ -4775,6 +4776,8 @@ py_statements = [
             "{cast_static}{c_type} *{cast1}{value_var}.data{cast2};",
             "self->{PY_member_object} = {value_var}.obj;"
             "  // steal reference",
+            "self->{PY_member_data} = {value_var}.dataobj;"
+            "  // steal reference",
         ],
     ),
     dict(
@@ -4839,6 +4842,8 @@ py_statements = [
             "SH_obj->{field_name} = "
             "{cast_static}char **{cast1}{value_var}.data{cast2};",
             "self->{PY_member_object} = {value_var}.obj;"
+            "  // steal reference",
+            "self->{PY_member_data} = {value_var}.dataobj;"
             "  // steal reference",
         ],
     ),
